@@ -408,4 +408,61 @@ theorem c07s_cookware_short_piece (T A rest : List Tok) (cs : CharSpec) (e : Ext
   rw [hrun]
   exact (c07p_indep_fields (Indep.cookwareTail ..) _).1
 
+/-- the actual block is a single-word component `marker ms W` whose parts spell the specified ones; its events are `F`
+    of the actual parts -/
+def c07s_shortSpec (msS WS tB : List Tok) (F : Tok → List Tok → List Tok → List (Ev α) → Prop)
+    (evs : List (Ev α)) : Prop :=
+  ∃ (tm : Tok) (ms W : List Tok), tB = tm :: (ms ++ W) ∧ Spells ms msS ∧ Spells W WS ∧ F tm ms W evs
+
+def c07s_ingrShortF (T A : List Tok) : Tok → List Tok → List Tok → List (Ev α) → Prop :=
+  fun tm ms W evs =>
+    evs = List.replicate (foldMods Modifiers.empty ms).2
+        (.error ⟨.error, .parse, "duplicate-modifier", [tokensSpan ms]⟩) ++
+      [.ingredient ⟨⟨simpleFlags ms (offAt T (A.length + 1)), none,
+        buildText (offAt T (A.length + 1 + ms.length)) W, none, none, none⟩,
+      ⟨offAt T A.length, offAt T (A.length + (tm :: (ms ++ W)).length)⟩⟩]
+
+def c07s_cwShortF (T A : List Tok) : Tok → List Tok → List Tok → List (Ev α) → Prop :=
+  fun tm ms W evs =>
+    evs = List.replicate (foldMods Modifiers.empty ms).2
+        (.error ⟨.error, .parse, "duplicate-modifier", [tokensSpan ms]⟩) ++ recipeModEvs ms ++
+      [.cookware ⟨⟨simpleFlags ms (offAt T (A.length + 1)),
+        buildText (offAt T (A.length + 1 + ms.length)) W, none, none, none⟩,
+      ⟨offAt T A.length, offAt T (A.length + (tm :: (ms ++ W)).length)⟩⟩]
+
+/-- single-word ingredient / cookware with modifier tokens given by SPECIFICATION tokens: pieces on every actual
+    block spelling them -/
+theorem c07s_short_mods_pieceAt (cs : CharSpec) (e : Ext) (tmS : Tok) (msS WS restS : List Tok)
+    (hm : (e.has Gen.EXT_COMPONENT_MODIFIERS = false ∧ msS = []) ∨
+      (e.has Gen.EXT_COMPONENT_MODIFIERS = true ∧ ∀ m ∈ msS, modKind m.kind = true)) (hs : SimpleMods msS)
+    (hW : ∀ t ∈ WS, wordKind t.kind = true) (hne : WS ≠ [])
+    (hR : ∀ t, restS.head? = some t → wordKind t.kind = false) (hnb : noBraceFirst restS = true)
+    (hnp : ∀ t, restS.head? = some t → t.kind ≠ .openParen)
+    (hname : ∃ t ∈ WS, plainKind t.kind = true ∧ NBs cs t.text)
+    (T tpre tB tpost : List Tok) (hT : T = tpre ++ (tB ++ tpost)) (hsB : Spells tB (tmS :: (msS ++ WS)))
+    (hpost : Spells tpost restS) (hrun : RunAt (baseOff T) T) :
+    (tmS.kind = .at → PlPieceAt (α := α) T cs e tpre ⟨tB, c07s_shortSpec msS WS tB (c07s_ingrShortF T tpre)⟩) ∧
+    (tmS.kind = .hash → PlPieceAt (α := α) T cs e tpre ⟨tB, c07s_shortSpec msS WS tB (c07s_cwShortF T tpre)⟩) := by
+  obtain ⟨tm, r, rfl, k1, -, kr⟩ := hsB.cons_inv
+  obtain ⟨ms, W, rfl, k2, k3⟩ := kr.append_inv
+  have hw : WF T := ⟨by rw [hT]; simp, hrun⟩
+  have hne' : W ≠ [] := by
+    intro h; apply hne; have := k3.length; rw [h] at this; exact List.eq_nil_of_length_eq_zero this.symm
+  have hm' : (e.has Gen.EXT_COMPONENT_MODIFIERS = false ∧ ms = []) ∨
+      (e.has Gen.EXT_COMPONENT_MODIFIERS = true ∧ ∀ m ∈ ms, modKind m.kind = true) := by
+    rcases hm with ⟨h1, h2⟩ | ⟨h1, h2⟩
+    · subst h2; exact Or.inl ⟨h1, k2.nil_inv⟩
+    · exact Or.inr ⟨h1, c07d_kind_of_spells k2 (fun k => modKind k = true) h2⟩
+  have hW' := c07d_kind_of_spells k3 (fun k => wordKind k = true) hW
+  have hR' := c07s_head_pred hpost.head_kind (fun k => wordKind k = false) hR
+  have hnp' := c07s_head_pred hpost.head_kind (fun k => k ≠ .openParen) hnp
+  have hnb' : noBraceFirst tpost = true := by rw [noBraceFirst_kinds tpost restS hpost.kinds]; exact hnb
+  refine ⟨fun hk => ?_, fun hk => ?_⟩
+  · exact (c07s_ingredient_short_piece (α := α) T tpre tpost cs e tm ms W hT hw (k1.trans hk) hm'
+      (c07v_simple_transfer k2 hs) hW' hne' hR' hnb' hnp' (c07x_name_transfer k3 hname _)).mono
+      (fun evs he => ⟨tm, ms, W, rfl, k2, k3, he⟩)
+  · exact (c07s_cookware_short_piece (α := α) T tpre tpost cs e tm ms W hT hw (k1.trans hk) hm'
+      (c07v_simple_transfer k2 hs) hW' hne' hR' hnb' hnp' (c07x_name_transfer k3 hname _)).mono
+      (fun evs he => ⟨tm, ms, W, rfl, k2, k3, he⟩)
+
 end Cook
